@@ -1,6 +1,10 @@
 package main
 
 import (
+	"crypto/ecdsa"
+	"crypto/elliptic"
+	"crypto/rand"
+	"crypto/rsa"
 	"bytes"
 	"crypto/ed25519"
 	"encoding/pem"
@@ -72,6 +76,11 @@ func runRPC(args []string) []string {
 	op := args[0]
 	p := args[1 : len(args)-4]
 	ag := newScripted(hx.ParseStrList(args[len(args)-4]), string(hx.UnHex(args[len(args)-3])))
+	theKey, kerr := ssh.ParsePublicKey(hx.UnHex(args[len(args)-2]))
+	if kerr != nil {
+		theKey = fixedKey()
+	}
+	ag.key = theKey
 	cc, sc := socketPair()
 	done := make(chan error, 1)
 	var served string
@@ -130,7 +139,7 @@ func runRPC(args []string) []string {
 		}
 	case "sign": // data hex, flags
 		fl, _ := strconv.Atoi(p[1])
-		sig, err := cl.SignWithFlags(fixedKey(), hx.UnHex(p[0]), sshagent.SignatureFlags(fl))
+		sig, err := cl.SignWithFlags(theKey, hx.UnHex(p[0]), sshagent.SignatureFlags(fl))
 		if err != nil {
 			res = "err"
 		} else {
@@ -146,7 +155,7 @@ func runRPC(args []string) []string {
 			res = "ok"
 		}
 	case "remove":
-		if cl.Remove(fixedKey()) != nil {
+		if cl.Remove(theKey) != nil {
 			res = "err"
 		} else {
 			res = "ok"
@@ -222,7 +231,8 @@ func genRPC(g *hx.Gen, out *hx.Out) {
 		args := append([]string{op}, p...)
 		out.Case(id, "rpc", args, safe(runRPC, args))
 	}
-	key := fixedKey().Marshal()
+	keys := rpcKeys()
+	key := keys[0]
 	slotFamilies := []struct {
 		tag   string
 		slots []string
@@ -232,6 +242,7 @@ func genRPC(g *hx.Gen, out *hx.Out) {
 	for i := 0; i < *hx.Count; i++ {
 		sf := slotFamilies[g.Intn(len(slotFamilies))]
 		et := errTexts[g.Intn(len(errTexts))]
+		key = keys[g.Intn(len(keys))] // keys of every type, and certificates over them
 		_, pemBytes := fixedCert()
 		setup := []string{hx.StrList(sf.slots), hx.HexS(et), hx.Hex(key), hx.Hex(pemBytes)}
 		switch g.Intn(14) {
@@ -359,4 +370,42 @@ func genSlots(g *hx.Gen, out *hx.Out) {
 		}
 		emit(b.String(), 0, "local")
 	}
+}
+
+
+var rpcKeyBlobs [][]byte
+
+// rpcKeys: public-key blobs of every type the agent protocol carries here — Ed25519 (the fixed
+// one first), ECDSA P-256 / P-384, RSA-2048, and certificates over an Ed25519 and an RSA key
+func rpcKeys() [][]byte {
+	if rpcKeyBlobs != nil {
+		return rpcKeyBlobs
+	}
+	out := [][]byte{fixedKey().Marshal()}
+	_, caPriv, _ := ed25519.GenerateKey(rand.Reader)
+	ca, _ := ssh.NewSignerFromKey(caPriv)
+	add := func(pub interface{}) ssh.PublicKey {
+		k, err := ssh.NewPublicKey(pub)
+		if err != nil {
+			panic(err)
+		}
+		out = append(out, k.Marshal())
+		return k
+	}
+	p256, _ := ecdsa.GenerateKey(elliptic.P256(), rand.Reader)
+	p384, _ := ecdsa.GenerateKey(elliptic.P384(), rand.Reader)
+	rk, _ := rsa.GenerateKey(rand.Reader, 2048)
+	add(&p256.PublicKey)
+	add(&p384.PublicKey)
+	rpub := add(&rk.PublicKey)
+	for _, k := range []ssh.PublicKey{fixedKey(), rpub} {
+		c := &ssh.Certificate{Key: k, Serial: 5, CertType: ssh.UserCert, KeyId: "rpc", ValidPrincipals: []string{"alice", "é"},
+			ValidBefore: ssh.CertTimeInfinity, Permissions: ssh.Permissions{CriticalOptions: map[string]string{"force-command": "x"}, Extensions: map[string]string{"permit-pty": ""}}}
+		if err := c.SignCert(rand.Reader, ca); err != nil {
+			panic(err)
+		}
+		out = append(out, c.Marshal())
+	}
+	rpcKeyBlobs = out
+	return out
 }
